@@ -382,10 +382,15 @@ def check_batch(strs, opts):
 
     def b(k, n=1):
         br[k] = br.get(k, 0) + n
+    n_timeouts = 0
     for s, o in zip(strs, outs):
+        if n_timeouts >= 6:
+            b("skipped-after-6-timeouts-in-this-batch")     # the verdict is established; do not burn the budget
+            continue
         res["cases"] += 1
         impl, to = timed(LM.impl_lex, s)
         if to:
+            n_timeouts += 1
             site = timeout_site(s)
             b("impl:timeout")
             b("oracle:" + site)
@@ -573,10 +578,14 @@ def task_matcher(args):
     outs = drv.ask_many([LM.req_matcher(method, s, p, tags, ctls) for s, p in cases])
     adjust = _adjust()
     res = {"cases": 0, "branches": {}, "disagreements": [], "violations": [], "n_disagreements": 0}
+    n_timeouts = 0
     for (s, p), o in zip(cases, outs):
+        if n_timeouts >= 6:
+            continue
         res["cases"] += 1
         impl, to = timed(impl_matcher, method, s, p, tags, ctls)
         if to:
+            n_timeouts += 1
             res["branches"]["m:%s:timeout" % name] = res["branches"].get("m:%s:timeout" % name, 0) + 1
             if len(res["violations"]) < 5:
                 res["violations"].append((timeout_site(s), s, "match_%s at offset %d did not finish within %.0f s" % (
@@ -1244,23 +1253,29 @@ def shrink_violation(site, case, ostream):
     from mako.lexer import Lexer
     from mako import exceptions
 
+    def parse(x):
+        r_, to = timed(lambda: Lexer(x).parse())
+        if to:
+            raise CaseTimeout()
+        return r_
+
     def fails(x):
         if ostream == "oracle.timeout":
             return False
         if ostream == "oracle.tiling":
             try:
-                tree = Lexer(x).parse()
+                tree = parse(x)
             except Exception:
                 return False
             return any(s_ == site for s_, _ in tiling_oracle(x, tree))
         if ostream == "oracle.render-inert":
             if not inert(x):
                 return False
-            r = render_oracle_inert(x)
-            return bool(r) and r[0] == site
+            r, to = timed(render_oracle_inert, x)
+            return (not to) and bool(r) and r[0] == site
         if ostream == "oracle.exceptions":
             try:
-                Lexer(x).parse()
+                parse(x)
             except exceptions.MakoException:
                 return False
             except Exception as e:
